@@ -63,6 +63,10 @@ func realMain() {
 		for _, s := range directed(ns) {
 			runSeq(c, s)
 		}
+		for _, s := range largeSeqs(ns, c.Thorough()) {
+			c.Hist["large-block-sequences"]++
+			runSeq(c, s)
+		}
 		for i := 0; i < nShort; i++ {
 			runSeq(c, genSeq(rng.Fork(uint64(i)), ns, "memory", false, lenShort))
 		}
@@ -74,6 +78,7 @@ func realMain() {
 		}
 	}
 	c.Extra["window"] = W
+	c.Extra["largest_store_or_revert_batch_bytes"] = maxBatchBytes
 	pprof.StopCPUProfile()
 	c.Finish("every crash image (after each committed write) decodes to the image the extracted model predicts, satisfies the extracted predicates consistent / recover_ready / index_covers, answers event queries like a receipt scan and stores the next block; after every injected commit failure the same process answers like the disk and stores the next block")
 }
